@@ -138,7 +138,38 @@ impl Q {
     }
 }
 
+thread_local! { static FILE_TICK: std::cell::Cell<u64> = const { std::cell::Cell::new(0) }; }
+
+/// `from_file` is the strict parser applied to the file's content, nothing else: same outcome, same matrix, for ANY text
+/// (one text in sixteen — and every text with a blank line, a `#` or a lone number line — is also read through a file)
+fn file_agrees(text: &str, rep: &mut Report) {
+    let tick = FILE_TICK.with(|t| { t.set(t.get() + 1); t.get() });
+    let interesting = text.contains("\n\n") || text.contains('#') || text.lines().skip(1).any(|l| l.trim().parse::<f64>().is_ok());
+    if !(interesting && tick % 3 == 0) && tick % 16 != 0 {
+        return;
+    }
+    let path = std::env::temp_dir().join(format!("pvh-c14f-{}-{:?}-{tick}.phy", std::process::id(), std::thread::current().id()));
+    if std::fs::write(&path, text).is_err() {
+        return;
+    }
+    for (square, entry) in [(true, "strict-square"), (false, "strict-tril")] {
+        let p2 = path.clone();
+        let got = match guarded(AssertUnwindSafe(|| DistanceMatrix::<f64>::from_file(&p2, square))) {
+            Err(_) => "panic".to_string(),
+            Ok(Err(_)) => "err".to_string(),
+            Ok(Ok(m)) => format!("ok {} | {}", enc_taxa(&m.taxa), m.iter().map(|v| canon_f64(*v)).collect::<Vec<_>>().join(" ")),
+        };
+        let want = real_parse64(entry, text);
+        rep.count("texts_also_read_through_from_file");
+        if got != want {
+            rep.oracle("from-file", &format!("{entry}:differs-from-the-strict-parser-on-the-same-text"), &format!("ph.parse\t{entry}\t{}", hex(text)), &format!("from_file: {got}; from_phylip_strict: {want}"));
+        }
+    }
+    let _ = std::fs::remove_file(&path);
+}
+
 fn parse_all(text: &str, q: &mut Q, rep: &mut Report, oracles: bool) {
+    file_agrees(text, rep);
     for e in ENTRIES {
         let a = real_parse64(e, text);
         let req = format!("ph.parse\t{e}\t{}", hex(text));
@@ -184,6 +215,18 @@ fn gen_taxa(rng: &mut Rng, n: usize) -> Vec<String> {
     if rng.chance(1, 5) {
         for (i, x) in v.iter_mut().enumerate() {
             *x = format!("sp|{}:{}(x)", i, x);
+        }
+    }
+    // labels holding a comma (no white space, so legal) and labels longer than the ten columns of the classic layout whose tail
+    // reads as a number
+    if rng.chance(1, 6) {
+        for (i, x) in v.iter_mut().enumerate() {
+            *x = match (i + rng.below(4)) % 4 {
+                0 => format!("b,{i}"),
+                1 => format!("seq{:010}", i * 7 + 3),
+                2 => format!("sample_{:07}.5", i),
+                _ => format!("{x},{x}"),
+            };
         }
     }
     // labels that READ as numbers (sample ids, accession numbers): a row label is never a header, a size or a distance
@@ -419,7 +462,11 @@ fn one_diagonal_cell(rng: &mut Rng, q: &mut Q, rep: &mut Report) {
     }
 }
 
+thread_local! { static SEED_HINT: std::cell::Cell<u64> = const { std::cell::Cell::new(1) }; }
+fn rep_seed_hint() -> u64 { SEED_HINT.with(|s| s.get()) }
+
 pub fn run(thorough: bool, seed: u64, driver: &str, rep: &mut Report) {
+    SEED_HINT.with(|s| s.set(seed));
     enum Job {
         Exhaustive { len: usize, from: u64, to: u64 },
         Round { seed: u64, n: usize },
@@ -481,6 +528,27 @@ pub fn run(thorough: bool, seed: u64, driver: &str, rep: &mut Report) {
                                 let a = real_parse32(e, &text);
                                 if a != bits_s {
                                     rep.oracle("roundtrip", &format!("{e}:{}", if a.starts_with("ok") { "differs" } else { a.as_str() }), &format!("ph.parse\t{e}\t{}", hex(&text)), &format!("{a} expected {bits_s} (f32)"));
+                                }
+                            }
+                        }
+                    }
+                    // a matrix of more than a thousand taxa (what a real analysis writes): both layouts, every entry point, cell for cell
+                    {
+                        let n = 1000 + (rep_seed_hint() % 300) as usize;
+                        let taxa: Vec<String> = (0..n).map(|i| format!("taxon{i}")).collect();
+                        let cells: Vec<f64> = (0..tri(n)).map(|k| ((k * 7919) % 4096) as f64 / 64.0).collect();
+                        let m = DistanceMatrix::new(taxa.clone(), &cells);
+                        let want = format!("ok {} | {}", enc_taxa(&taxa), cells.iter().map(|v| canon_f64(*v)).collect::<Vec<_>>().join(" "));
+                        for square in [true, false] {
+                            let case = format!("matrix f64 of {n} taxa (cell k = ((k * 7919) mod 4096) / 64) square={square}");
+                            rep.case(&case, true);
+                            rep.count("corpus:thousand-taxa");
+                            let Ok(text) = guarded(AssertUnwindSafe(|| m.to_phylip(square).unwrap())) else { rep.oracle("no-panic", "to_phylip", &case, "panic"); continue };
+                            let entries: Vec<&str> = if square { vec!["strict-square"] } else { vec!["tril", "strict-tril"] };
+                            for e in entries {
+                                let a = real_parse64(e, &text);
+                                if a != want {
+                                    rep.oracle("roundtrip", &format!("{e}:large:{}", if a.starts_with("ok") { "differs" } else { a.as_str() }), &case, &format!("{} ...", a.chars().take(200).collect::<String>()));
                                 }
                             }
                         }
